@@ -78,7 +78,7 @@ pub fn pool_ym(seed: u64) -> Vec<i32> {
         v.push(-p);
     }
     for k in 0..4u64 {
-        v.push((splitmix(seed ^ (0x1317 + k)) % (2 * YM_LIMIT as u64 + 1)) as i64 as i32 - YM_LIMIT);
+        v.push(((splitmix(seed ^ (0x1317 + k)) % (2 * YM_LIMIT as u64 + 1)) as i64 - YM_LIMIT as i64) as i32);
     }
     fin(v)
 }
@@ -94,7 +94,7 @@ pub fn pool_dt(seed: u64) -> Vec<i64> {
         v.push(-p);
     }
     for k in 0..4u64 {
-        v.push((splitmix(seed ^ (0xD700 + k)) % (2 * DT_LIMIT as u64 + 1)) as i64 - DT_LIMIT);
+        v.push(((splitmix(seed ^ (0xD700 + k)) % (2 * DT_LIMIT as u64 + 1)) as i128 - DT_LIMIT as i128) as i64);
     }
     fin(v)
 }
